@@ -460,7 +460,16 @@ async def run_steps(W: World, steps: list[dict[str, Any]], rng: random.Random | 
         if op == "probe":
             take_probe(W, step["id"], rng)
         elif op == "gate":
-            if step.get("on_cancel_raise"):
+            if step.get("on_cancel_sleep"):
+                try:
+                    await W.sched.gate(step["label"])
+                except asyncio.CancelledError:
+                    # a task whose cleanup takes a few loop turns before it ends cancelled
+                    W.event("slow-cleanup", step["label"])
+                    for _ in range(step["on_cancel_sleep"]):
+                        await asyncio.sleep(0)
+                    raise
+            elif step.get("on_cancel_raise"):
                 try:
                     await W.sched.gate(step["label"])
                 except asyncio.CancelledError:
@@ -603,7 +612,17 @@ async def run_block(W: World, block: dict[str, Any], rng: random.Random | None) 
         W.block_phase[name] = "body"
         W.live[name] = (id(asyncio.current_task()), {t for t, _ in block["supply"]})
         W.event("body-start", name)
-        await run_steps(W, block["body"], rng)
+        if block.get("convert_cancel"):
+            # user code that answers a cancellation of its body with an error of its own
+            try:
+                await run_steps(W, block["body"], rng)
+            except asyncio.CancelledError:
+                W.event("body-converts-cancel", name)
+                exc = BodyExc(name)
+                W.raised[name] = exc
+                raise exc from None
+        else:
+            await run_steps(W, block["body"], rng)
         ex = (block.get("exit") or {}).get("kind", "return")
         W.event("body-end", name, ex)
         if ex == "cancel-self":
